@@ -39,13 +39,12 @@ def parse_gen(out):
             raise vlib.Infra("broken generation line: " + line[:200])
         if parts[0] == "ST":
             if parts[1] not in states:
-                states[parts[1]] = vlib.parse_value(parts[2])
+                states[parts[1]] = json.loads(parts[2])
         else:
-            a = cache.get(parts[2])
-            if a is None:
-                a = cache[parts[2]] = vlib.parse_value(parts[2])
-            edges.append((parts[1], a, parts[3]))
-    return states, edges
+            if parts[2] not in cache:
+                cache[parts[2]] = json.loads(parts[2])
+            edges.append((parts[1], parts[2], parts[3]))
+    return states, edges, cache
 
 
 def cover_walks(g, eidx, init, max_len, rng):
@@ -135,6 +134,55 @@ def names_of(cfg_path):
     return out
 
 
+def gen_graph(c, gcfg, rng):
+    """TLC enumerates the complete graph of a generation configuration; returns the harness input for it."""
+    t0 = time.time()
+    gen = vlib.tlc(SPEC_DIR, "MC_StateBuffer", gcfg, c.work, timeout=2400, args=["-fp", "1"])
+    c.require_ok(gen, "StateBuffer transition enumeration (%s)" % gcfg)
+    tparse = time.time()
+    states, edges, acttext = parse_gen(gen.out)
+    if len(edges) < 1000 or len(states) < 100:
+        raise vlib.Infra("too few transitions generated: %d states, %d transitions" % (len(states), len(edges)))
+    missing = {d for (_, _, d) in edges if d not in states} | {s for (s, _, _) in edges if s not in states}
+    if missing:
+        raise vlib.Infra("%d transition endpoints without a state line" % len(missing))
+    skeys = sorted(states)
+    sid = {k: i for i, k in enumerate(skeys)}
+    inits = [k for k in skeys if states[k].get("init")]
+    if len(inits) != 1:
+        raise vlib.Infra("expected one initial state, got %d" % len(inits))
+    acts, aid = [], {}
+    E = []
+    g = vlib.Graph()
+    g.init = [inits[0]]
+    eidx = {}
+    for (s, ak, d) in sorted(set(edges)):
+        if ak not in aid:
+            aid[ak] = len(acts)
+            acts.append(acttext[ak])
+        eidx[(s, len(g.out.setdefault(s, [])))] = len(E)
+        g.out[s].append((d, ak))
+        E.append([sid[s], aid[ak], sid[d]])
+    walks = cover_walks(g, eidx, inits[0], 250, rng)
+    covered = {e for w in walks for e in w}
+    reachable = set()
+    stack = [inits[0]]
+    while stack:
+        s = stack.pop()
+        if s in reachable:
+            continue
+        reachable.add(s)
+        stack.extend(d for d, _ in g.out.get(s, []))
+    want = {i for i, e in enumerate(E) if skeys[e[0]] in reachable}
+    if covered != want:
+        raise vlib.Infra("edge cover incomplete: %d of %d" % (len(covered), len(want)))
+    vlib.log("C12: %s: %d states, %d transitions, %d walks, %d steps (TLC %.1fs, parse+plan %.1fs)" % (
+        gcfg, len(states), len(E), len(walks), sum(len(w) for w in walks), tparse - t0, time.time() - tparse))
+    nm = names_of(os.path.join(SPEC_DIR, gcfg))
+    return {"name": gcfg[:-4], "accts": nm["Accts"], "ctrs": nm["Ctrs"], "keys": nm["Keys"],
+            "states": [obs_json(states[k]) for k in skeys], "acts": acts, "edges": E, "init": sid[inits[0]], "walks": walks}
+
+
 def run(c):
     rng = random.Random(c.seed)
     thorough = c.tier == "thorough"
@@ -161,58 +209,13 @@ def run(c):
                           ("MC_StateBuffer_big4.cfg", "StateBuffer design, two commit cycles on one StateDB")):
             res = vlib.tlc(SPEC_DIR, "MC_StateBuffer", cfg, c.work, timeout=2400)
             c.require_ok(res, what)
-    # 2. generation: the complete transition graph of the small instance
-    gcfg = "Gen_StateBuffer_big.cfg" if thorough else "Gen_StateBuffer.cfg"
-    t0 = time.time()
-    gen = vlib.tlc(SPEC_DIR, "MC_StateBuffer", gcfg, c.work, timeout=2400, args=["-fp", "1"])
-    c.require_ok(gen, "StateBuffer transition enumeration (%s)" % gcfg)
-    tparse = time.time()
-    states, edges = parse_gen(gen.out)
-    if len(edges) < 1000 or len(states) < 100:
-        raise vlib.Infra("too few transitions generated: %d states, %d transitions" % (len(states), len(edges)))
-    missing = {d for (_, _, d) in edges if d not in states} | {s for (s, _, _) in edges if s not in states}
-    if missing:
-        raise vlib.Infra("%d transition endpoints without a state line" % len(missing))
-    skeys = sorted(states)
-    sid = {k: i for i, k in enumerate(skeys)}
-    inits = [k for k in skeys if states[k].get("init")]
-    if len(inits) != 1:
-        raise vlib.Infra("expected one initial state, got %d" % len(inits))
-    acts, aid = [], {}
-    E = []
-    g = vlib.Graph()
-    g.init = [inits[0]]
-    eidx = {}
-    for (s, a, d) in sorted(edges, key=lambda e: (e[0], json.dumps(e[1], sort_keys=True), e[2])):
-        ak = json.dumps(a, sort_keys=True)
-        if ak not in aid:
-            aid[ak] = len(acts)
-            acts.append(a)
-        eidx[(s, len(g.out.setdefault(s, [])))] = len(E)
-        g.out[s].append((d, ak))
-        E.append([sid[s], aid[ak], sid[d]])
-    walks = cover_walks(g, eidx, inits[0], 250, rng)
-    covered = {e for w in walks for e in w}
-    reachable = set()
-    stack = [inits[0]]
-    while stack:
-        s = stack.pop()
-        if s in reachable:
-            continue
-        reachable.add(s)
-        stack.extend(d for d, _ in g.out.get(s, []))
-    want = {i for i, e in enumerate(E) if skeys[e[0]] in reachable}
-    if covered != want:
-        raise vlib.Infra("edge cover incomplete: %d of %d" % (len(covered), len(want)))
-    vlib.log("C12: graph %d states, %d transitions, %d walks, %d steps (TLC %.1fs, parse+plan %.1fs)" % (
-        len(states), len(E), len(walks), sum(len(w) for w in walks), tparse - t0, time.time() - tparse))
-    nm = names_of(os.path.join(SPEC_DIR, gcfg))
+    # 2. generation: the complete transition graphs of the small instances
+    gcfgs = ["Gen_StateBuffer_big.cfg", "Gen_StateBuffer_nest_big.cfg"] if thorough else ["Gen_StateBuffer.cfg", "Gen_StateBuffer_nest.cfg"]
+    graphs = [gen_graph(c, cfg, rng) for cfg in gcfgs]
     rnd = dict(walks=64, ops=200, accts=3, ctrs=3, keys=4, vals=5, maxsnap=6, traced=12)
     if thorough:
-        rnd.update(walks=1500, ops=300, traced=60)
-    inp = {"accts": nm["Accts"], "ctrs": nm["Ctrs"], "keys": nm["Keys"],
-           "states": [obs_json(states[k]) for k in skeys], "acts": acts, "edges": E, "init": sid[inits[0]],
-           "walks": walks, "salts": 2 if thorough else 1, "random": rnd}
+        rnd.update(walks=800, ops=300, traced=40)
+    inp = {"graphs": graphs, "salts": 2 if thorough else 1, "random": rnd}
     inpath = os.path.join(c.work, "sb_in.json")
     json.dump(inp, open(inpath, "w"))
     outpath = os.path.join(c.work, "sb_out.json")
@@ -225,9 +228,10 @@ def run(c):
     if rc != 0 and not r.get("violations"):
         raise vlib.Infra("harness failed:\n" + output[-3000:])
     c.exhaustive = True
-    c.extra["exhaustive_note"] = ("exhaustive over the abstract model %s: every one of its %d transitions (%d states) is on a replayed walk; "
+    c.extra["exhaustive_note"] = ("exhaustive over the abstract models %s: every one of their %d transitions (%d states) is on a replayed walk; "
                                   "the random driver (%d walks x %d calls, %d accounts, %d contracts, %d keys, nesting <= %d) is sampled"
-                                  % (gcfg, len(E), len(states), rnd["walks"], rnd["ops"], rnd["accts"], rnd["ctrs"], rnd["keys"], rnd["maxsnap"]))
+                                  % (", ".join(gcfgs), sum(len(g["edges"]) for g in graphs), sum(len(g["states"]) for g in graphs),
+                                     rnd["walks"], rnd["ops"], rnd["accts"], rnd["ctrs"], rnd["keys"], rnd["maxsnap"]))
     # 3. direction B: what the real code returned on the recorded random walks, validated by TLC
     if not r.get("violations"):
         if not os.path.exists(tracepath):
